@@ -102,6 +102,8 @@ Proof.
   repeat (destruct IN as [IN|IN]; [subst k|]); [..|contradiction]; try congruence;
     unfold same_for; cbn [String.eqb Ascii.eqb Bool.eqb]; intro H; rewrite <- H; destruct d2; reflexivity.
 Qed.
+Lemma bin_state_facts d d2 : xprec (bin_state d d2) = xprec d2 /\ title (bin_state d d2) = title d2 /\ end_keyword (bin_state d d2) = end_keyword d2.
+Proof. unfold bin_state. destruct d2. repeat split; reflexivity. Qed.
 Definition idem_bin_ok (d : t2d) (ks : list string) : bool :=
   let d2 := reread d ks in let X := bin_state d d2 in
   idem_chain d ks (start_state d) && all_distinct String.eqb ks && forallb no_mesh_kind ks &&
@@ -124,8 +126,7 @@ Proof.
   apply strs_eqb_eq in BN, MSX, RN.
   destruct (idem_chain_all d ks _ ICH) as [COV WFW].
   destruct (reread_facts d ks) as [XD [SD ED]]. fold d2 in XD, SD, ED.
-  assert (FX : xprec X = [] /\ title X = title d2 /\ end_keyword X = end_keyword d2) by (unfold X, bin_state; destruct d2; cbn in *; auto).
-  destruct FX as [XX [MT ME]].
+  destruct (bin_state_facts d d2) as [XX0 [MT ME]]. fold X in XX0, MT, ME. assert (XX : xprec X = []) by (rewrite XX0; exact XD).
   destruct (write_files_bin_shape d d' fs W US XP) as [all [WS EF]]. subst fs. cbn [f_main f_mesh f_pdat]. rewrite SK in WS.
   rewrite (write_sections_prog d ks COV WFW) in WS.
   assert (W1 : render0 (prog_file d ks) = Ok ((strip (title d) +++ [nl]) :: all ++ [end_keyword d +++ [nl]])%list).
